@@ -121,7 +121,19 @@ func (f *Frame) jsonUnmarshal(x ssa.Value, cc *ssa.CallCommon, args []*Val, st *
 		partial := c.freshConst("json.partial", c.sortOf(T))
 		e.storeAddr(st, a, ite(eq(errT, "nilIface"), decT, partial))
 	}
-	e.bumpTok(st)
+	// a target that was allocated here and has not been visible to anyone before this
+	// call: only fresh memory is written, earlier pure applications are unaffected
+	freshTarget := false
+	if r := rootAlloc(mi.X); r != nil && valueParent(r) == f.fn {
+		if first, done := f.escaped[r]; !done || first == ssa.Instruction(mi) || first == f.curInstr {
+			if _, isMap := T.Underlying().(*types.Map); !isMap {
+				freshTarget = true
+			}
+		}
+	}
+	if !freshTarget {
+		e.bumpTok(st)
+	}
 	if x != nil {
 		f.vals[x] = &Val{T: errT, Typ: x.Type(), ConstLen: -1}
 	}
